@@ -275,7 +275,7 @@ def run_config(cfg, tier, seed):
     if cfg["part"] == 1:
         return explore_hw(build, RouteObserver, cfg, tier, seed)
     ob = ReadObs if cfg["side"] == "r" else WriteObs
-    return explore_hw(build, ob, cfg, tier, seed, only=_only(cfg["side"]), max_seconds=400)
+    return explore_hw(build, ob, cfg, tier, seed, only=_only(cfg["side"]), max_seconds=3000)
 
 
 def replay(data):
